@@ -92,8 +92,38 @@ def spec_accept(V, u, X, pref=None, scale=1.0):
     return u < 1.0 if L >= 0 else u < math.exp(L)
 
 
-def _textbook(V, d_code, u, X, pref, label, info):
+def threshold_of(evaluate_with_u):
+    """Replay helper: the real criteria's acceptance threshold sup{u in [0,1): accepted}, by bisection
+    (the criteria is a pure function of the context and of the one uniform number it draws)."""
+    lo, hi = 0.0, 1.0
+    if evaluate_with_u(1.0 - 1e-16):
+        return 1.0
+    if not evaluate_with_u(0.0):
+        return 0.0
+    for _ in range(60):
+        mid = 0.5 * (lo + hi)
+        if evaluate_with_u(mid):
+            lo = mid
+        else:
+            hi = mid
+    return 0.5 * (lo + hi)
+
+
+def textbook_threshold(X, pref=None):
+    X = float(X)
+    pref = 1.0 if pref is None else float(pref)
+    if pref <= 0:
+        return 0.0
+    L = X + math.log(pref)
+    return 1.0 if L >= 0 else math.exp(L)
+
+
+def _textbook(V, d_code, u, X, pref, label, info, threshold=None):
     """d_code must agree with the textbook rule outside the +-EPS band around the threshold."""
+    if V.mode != "sym" and threshold is not None:
+        want = textbook_threshold(X, pref)
+        V.prove(abs(threshold - want) <= 1e-6 * max(want, 1e-300) + 1e-12, label, info=info + f":threshold={threshold:.6g}:textbook={want:.6g}")
+        return
     lo = spec_accept(V, u, X, pref, 1.0 - EPS)
     hi = spec_accept(V, u, X, pref, 1.0 + EPS)
     if V.mode == "sym":
@@ -107,6 +137,9 @@ def _textbook(V, d_code, u, X, pref, label, info):
         V.prove(((not lo) or dc) and ((not dc) or hi), label, info=info)
 
 
+_LAST_THRESHOLD = {}
+
+
 def _evaluate(V, crit, ctx, tag):
     """Run the real evaluate; an escaping exception is a violation of the 'never raise' clause."""
     try:
@@ -118,6 +151,20 @@ def _evaluate(V, crit, ctx, tag):
         V.fail("no-exception", info=f"{tag}:{type(ex).__name__}")
         return None
     V.reach(f"{tag}:decided")
+    if V.mode != "sym" and isinstance(ctx.rng, OneU):
+        rng = ctx.rng
+
+        def ev(uu):
+            ctx.rng = OneU(uu)
+            try:
+                return bool(crit.evaluate(ctx))
+            finally:
+                ctx.rng = rng
+
+        try:
+            _LAST_THRESHOLD[tag] = threshold_of(ev)
+        except Exception:  # noqa: BLE001
+            _LAST_THRESHOLD.pop(tag, None)
     return d
 
 
@@ -158,7 +205,7 @@ def sc_canonical(V, n=1, via_setter=False):
     if d is None:
         return
     X = -(E1 - E0) / (T * _kB())
-    _textbook(V, d, u, X, None, "decision==textbook", f"canonical:setter={via_setter}")
+    _textbook(V, d, u, X, None, "decision==textbook", f"canonical:setter={via_setter}", threshold=_LAST_THRESHOLD.get("canonical"))
 
 
 def sc_hamiltonian(V, n=1, via_setter=False):
@@ -194,7 +241,7 @@ def sc_hamiltonian(V, n=1, via_setter=False):
         for k in range(3):
             K1 = K1 + p[i, k] * p[i, k] / (2 * m[i])
     X = -((E1 + K1) - (E0 + K0)) / (T * _kB())
-    _textbook(V, d, u, X, None, "decision==textbook", f"hamiltonian:setter={via_setter}")
+    _textbook(V, d, u, X, None, "decision==textbook", f"hamiltonian:setter={via_setter}", threshold=_LAST_THRESHOLD.get("hamiltonian"))
 
 
 def _new_cell(V, atoms, old="cubic"):
@@ -252,7 +299,7 @@ def sc_isobaric(V, n=1, old="cubic", via_setter=False):
     if d is None:
         return
     X = -((E1 - E0) + P * (vn - vo)) / (T * _kB()) + (n + 1) * _log_ratio(V, vn, vo)
-    _textbook(V, d, u, X, None, "decision==textbook", f"isobaric:old={old}:setter={via_setter}")
+    _textbook(V, d, u, X, None, "decision==textbook", f"isobaric:old={old}:setter={via_setter}", threshold=_LAST_THRESHOLD.get("isobaric"))
 
 
 def sc_isotension(V, n=1, old="cubic", hydro=False, via_setter=False):
@@ -302,7 +349,7 @@ def sc_isotension(V, n=1, old="cubic", hydro=False, via_setter=False):
             sij = S[i][j] - (P if i == j else 0.0)
             W = W + sij * eps[j][i]
     X = -((E1 - E0) + P * (vn - vo) + vo * W) / (T * _kB()) + (n + 1) * _log_ratio(V, vn, vo)
-    _textbook(V, d, u, X, None, "decision==textbook", info)
+    _textbook(V, d, u, X, None, "decision==textbook", info, threshold=_LAST_THRESHOLD.get("isotension"))
 
 
 def sc_grand(V, n=1, delta=1, via_setter=False):
@@ -363,7 +410,7 @@ def sc_grand(V, n=1, delta=1, via_setter=False):
         # true lemma exp(X + log pref) = exp(X) * pref for pref > 0 (lets a log-domain implementation match)
         Lp = eng.app("log", lift(pref))
         eng.axiom(z3.Implies(lift(pref) > 0, eng.app("exp", lift(X) + Lp) == eng.app("exp", lift(X)) * lift(pref)))
-    _textbook(V, d, u, X, pref, "decision==textbook", info)
+    _textbook(V, d, u, X, pref, "decision==textbook", info, threshold=_LAST_THRESHOLD.get("grand"))
 
 
 SCENARIOS = {
